@@ -328,7 +328,30 @@ def _bound(prefix, n):
     return [z3.Int("%s@%d.%d" % (prefix, _DEPTH[0], i)) for i in range(n)]
 
 
-def forall(lo, hi, fn, pats=None):
+def multipat(*terms):
+    """a multi-pattern, or None when some term cannot serve as a trigger in the current state (e.g. a field that is
+    still a literal there); `forall` drops the None entries"""
+    ts = []
+    for t in terms:
+        t = getattr(t, "z3", t)
+        if not (is_z3(t) and z3.is_app(t) and t.num_args() > 0):
+            return None
+        ts.append(t)
+    try:
+        return z3.MultiPattern(*ts) if len(ts) > 1 else ts[0]
+    except z3.Z3Exception:
+        return None
+
+
+def _usable_pattern(p, ks):
+    if p is None:
+        return False
+    if isinstance(p, z3.PatternRef):
+        return True
+    return is_z3(p) and z3.is_app(p) and p.num_args() > 0 and not z3.is_const(p)
+
+
+def forall(lo, hi, fn, pats=None, extra_pats=None):
     """forall k in [lo, hi): fn(k)   (fn may take several arguments: all range over [lo, hi))"""
     import inspect
     n = len(inspect.signature(fn).parameters)
@@ -354,8 +377,13 @@ def forall(lo, hi, fn, pats=None):
     if pats is not None:
         p = pats(*ks)
         p = p if isinstance(p, (list, tuple)) else [p]
-        return z3.ForAll(ks, full, patterns=list(p))
+        p = [x for x in p if _usable_pattern(x, ks)]
+        if p:
+            return z3.ForAll(ks, full, patterns=list(p))
     p = _collect_patterns(body, ks)
+    if extra_pats is not None and p:
+        e = extra_pats(*ks)
+        p = list(p) + list(e if isinstance(e, (list, tuple)) else [e])
     if p:
         return z3.ForAll(ks, full, patterns=p)
     return z3.ForAll(ks, full)
